@@ -417,7 +417,7 @@ def rewrite_body(body, log, r14=None):
         log.append('R10')
         pat, vec = mo.group(1), mo.group(2)
         return ('let mut drained__ = Vec::new(); core::mem::swap(%s, &mut drained__); '
-                'for %s in drained__ {') % (vec, pat)
+                'while drained__.len() > 0 { let %s = drained__.remove(0);') % (vec, pat)
     body = re.sub(r'\bfor\s+(\w+)\s+in\s+(\w+)\.drain\(\.\.\)\s*\{', r10, body)
 
     # R1 -- range loops become while loops (Rust's own Range::next desugaring)
